@@ -60,6 +60,7 @@ func init() {
 			{ID: "C08-R35", Title: "containers are filled through the element converter", Floor: 2, Run: containersAreFilledThroughTheElementConverter},
 			{ID: "C08-R36", Title: "converters do not format the value", Floor: 10, Run: convertersDoNotFormatTheValue},
 			{ID: "C08-R37", Title: "what reflect.Copy copied is looked at", Floor: 1, Run: whatReflectCopyCopiedIsLookedAt},
+			{ID: "C08-R38", Title: "a type's name is not its identity", Floor: 1, Run: aTypesNameIsNotItsIdentity},
 		},
 	})
 }
